@@ -68,6 +68,7 @@ def gen(tape: Tape, tier: str) -> dict:
             max_n=20,
             max_blocks=6,
             by_dask_p=0.5,
+            by_dask_any_method=True,
             expected_modes=("none", "none", "exact", "superset"),
             max_ndim=2,
         )
